@@ -122,6 +122,22 @@ class C09(Check):
             if only:
                 events.append({"scope": "scenario_step", "scope_instance_id": 0, "event_type": "agent_removal", "start_time": fmt_ts(S + dt.timedelta(seconds=step * rng.randrange(1, nrun + 1))),
                                "tasking_engine_id": cfg["engines"][0]["unique_id"], "agent_id": rng.choice(only), "agent_type": "target"})
+        if rng.random() < 0.25:
+            eng = rng.choice(cfg["engines"])
+            all_vis = eng["decision"]["name"] == "AllVisibleDecision"
+            T = fmt_ts(S + dt.timedelta(seconds=step * rng.randrange(1, nrun + 1)))
+            if rng.random() < 0.6:
+                lat, lon, alt = gen.draw_site(rng)
+                agent = gen.ground_sensor(95001, lat, lon, alt, gen.sensor_block("adv_radar" if all_vis else rng.choice(["optical", "radar", "adv_radar"]), coarse=True))
+            else:
+                orb = gen.draw_orbit(rng, rng.choice(["leo", "geo"]))
+                agent = gen.space_sensor(95001, orb["pos"], orb["vel"], gen.sensor_block("adv_radar" if all_vis else rng.choice(["optical", "adv_radar"]), coarse=True))
+            events.append({"scope": "scenario_step", "scope_instance_id": 0, "event_type": "sensor_addition", "start_time": T, "tasking_engine_id": eng["unique_id"], "sensor_agent": agent})
+        if rng.random() < 0.15:
+            eng = rng.choice(cfg["engines"])
+            if len(eng["sensors"]) > 1:
+                events.append({"scope": "scenario_step", "scope_instance_id": 0, "event_type": "agent_removal", "start_time": fmt_ts(S + dt.timedelta(seconds=step * rng.randrange(1, nrun + 1))),
+                               "tasking_engine_id": eng["unique_id"], "agent_id": rng.choice(eng["sensors"])["id"], "agent_type": "sensor"})
         removed = {e.get("agent_id") for e in events}
         if det and rng.random() < 0.8:
             cands = [t for t in tids if t not in removed]
@@ -191,6 +207,9 @@ class C09(Check):
                 pass
             dbaudit.audit(rows, colnames, expect, viol, cnt)
             cnt["clean_runs_audited"] = 1
+            for e in case["config"].get("events", []):
+                nm = e["event_type"] + ("_" + e["agent_type"] if e["event_type"] == "agent_removal" else "") + ("_" + e["sensor_agent"]["platform"]["type"] if e["event_type"] == "sensor_addition" else "")
+                cnt["runs_with_" + nm] = 1
             cnt["steps"] = nrun
             if nrun > ncfg:
                 cnt["ran_past_configured_stop"] = 1
